@@ -357,7 +357,7 @@ def check(repo, res, tier):
 
     # --------------------------------------------------------------- S5 R-CANARY
     from ..rules import canaryx
-    nh = canaryx.check_canary(repo, res, canary, states)
+    nh = canaryx.check_canary(repo, res, canary, states, maxlen=4 if tier == "thorough" else 3)
     res.floor("canary histories played", nh, 2000)
 
     # ---------------------------------------------------------------- S2 R-TRIP
@@ -385,7 +385,7 @@ def check(repo, res, tier):
     res.floor("definition-state write sites", n_sites, 6)
 
     # --------------------------------------------------------------- S3 R-GUARD
-    _check_guard(repo, res, cls, compile_fn)
+    _check_guard(repo, res, cls, compile_fn, tier)
 
     # --------------------------------------------------------------- S4 R-CACHE
     _check_cache(repo, res, cls, regs, gens, D, all_funcs)
@@ -437,20 +437,20 @@ def _discharged(repo, cls, f, site, always, depth, seen):
 
 
 # ------------------------------------------------------------------- R-GUARD
-def _check_guard(repo, res, cls, compile_fn):
+def _check_guard(repo, res, cls, compile_fn, tier="quick"):
     """the evaluator protocol, decided on every history of at most four steps (rules/evalx.py)"""
     from ..rules import evalx
     add_func = repo.resolve_method(cls, "add_func")
     if add_func is None:
         raise AnalysisError("add_func vanished")
     try:
-        bad, n = evalx.run_histories(repo, cls)
+        bad, n = evalx.run_histories(repo, cls, maxlen=5 if tier == "thorough" else 4)
     except Undecided as e:
         res.undecided("R-GUARD", add_func, "histories", "outside the modelled subset: %s" % e)
         return
     res.functions.add(compile_fn.construct)
     res.check(not bad, "R-GUARD", add_func, "histories(%d)" % n,
-              "on every history of <= 4 steps over {evaluate ode, evaluate jacobian, modify the model, change parameter values} each evaluation returns what a "
+              "on every history of <= %d steps over" % (5 if tier == "thorough" else 4) + "  {evaluate ode, evaluate jacobian, modify the model, change parameter values} each evaluation returns what a "
               "freshly built model of the current definition returns (current expression, symbols, output type, parameter values read at call time)",
               "an evaluator is stale or wrong on %d histor%s, e.g. %s" % (len(bad), "y" if len(bad) == 1 else "ies", bad[0] if bad else ""), node=add_func.node)
     res.floor("evaluator histories played", n, 150)
